@@ -277,6 +277,9 @@ def oracle(run, model_ops, outs, n_open, case):
                     run.violate({'kind': 'close_accepted_on_dead_context'}, case, out)
                 else:
                     s['st'] = 'closed'
+            elif s is not None and s['st'] == 'open' and out.get('exc') == 'CIMError' and out.get('code') != 7:
+                # a live session must always be closable (else its context stays open on the server for ever)
+                run.violate({'kind': 'close_refused_on_live_context', 'code': out.get('code')}, case, out)
     live = sum(1 for s in sess.values() if s['st'] == 'open')
     if n_open != live:
         run.violate({'kind': 'context_leak', 'server': n_open, 'client_open': live}, case,
